@@ -17,7 +17,9 @@ EXPLANATION = (
     "(I/O calls of the fread variants, the zero-copy branch and file-extent checks of the mmap "
     "variant, the leading-magic test missing from read_footer) is a violation. Plus: a "
     "CARQUET_DATA_VIEW pointer is never passed to free (typestate on decoded_ownership along every "
-    "path to free(decoded_values)). Decides these clauses, not row alignment of batches nor "
+    "path to free(decoded_values)); the pointer published with the VIEW tag is pointer arithmetic on "
+    "file_reader->mmap_data on every definition (never a recycled heap buffer), which is what keeps "
+    "zero-copy data valid until close. Decides these clauses, not row alignment of batches nor "
     "validity of zero-copy data until close.")
 
 PR = "src/reader/page_reader.c"
@@ -162,5 +164,70 @@ def run(ctx):
     tags = [a for a in ln.body.walk() if is_assign(a) and a.c[0].strip().k == "MemberExpr"
             and a.c[0].strip().name == "decoded_ownership" and a.c[1].cv == 1]
     okv = len(views) == 1 and len(tags) == 1 and ln.cfg.where()[views[0].i][0] == ln.cfg.where()[tags[0].i][0]
+    # ... and what is published as a view really is a pointer into the mapping (it stays valid until
+    # the reader is closed), never a heap buffer the column reader recycles
+    mapped = _mapped_locals(ln)
+    for v in views:
+        b = _ptr_base(v.c[1])
+        okp = b is not None and b in mapped
+        ctx.ob("R2.view", "view-provenance|%s:load_next_page_mmap" % PR, P.where(v),
+               "the pointer published as CARQUET_DATA_VIEW is derived from file_reader->mmap_data on every path",
+               okp, "value `%s`; locals derived from the mapping: %s" % (src(v.c[1])[:40], sorted(n for n in mapped.values())))
     ctx.ob("R2.view", "view-tag|%s:load_next_page_mmap" % PR, P.where(ln.body),
            "a pointer into the mapping is stored in decoded_values only together with decoded_ownership = VIEW", okv)
+
+
+def _ptr_base(e):
+    x = e.strip_casts()
+    while True:
+        if x.k in ("ParenExpr", "ImplicitCastExpr", "CStyleCastExpr"):
+            x = x.c[0]
+        elif x.k == "BinaryOperator" and x.op in ("+", "-"):
+            x = x.c[0].strip_casts()
+        elif x.k == "ConditionalOperator":
+            return None
+        else:
+            break
+    if x.k == "DeclRefExpr" and x.get("dk") == "local":
+        return x.get("d")
+    if x.k == "MemberExpr" and x.name == "mmap_data":
+        return "mmap_data"
+    return None
+
+
+def _mapped_locals(fn):
+    """{decl id: name} of pointer locals whose every definition is pointer arithmetic on
+    file_reader->mmap_data or on another such local (greatest fixpoint)."""
+    defs = {}
+    names = {}
+    for n in fn.body.walk():
+        if n.k == "DeclStmt":
+            for d, init in zip(n.get("decls", []), n.c):
+                if "d" in d and "*" in (d.get("t") or ""):
+                    names[d["d"]] = d["n"]
+                    defs.setdefault(d["d"], [])
+                    if init is not None:
+                        defs[d["d"]].append(init)
+        elif is_assign(n):
+            t = n.c[0].strip()
+            if t.k == "DeclRefExpr" and t.get("dk") == "local" and t.get("d") in defs:
+                defs[t.get("d")].append(n.c[1] if n.op == "=" else n.c[0])
+        elif n.k == "UnaryOperator" and n.op == "&":
+            t = n.c[0].strip_casts()
+            if t.k == "DeclRefExpr" and t.get("d") in defs:
+                defs[t.get("d")].append(None)      # address escapes: unknown definitions
+    ok = {d: True for d in defs if defs[d]}
+    ok["mmap_data"] = True
+    changed = True
+    while changed:
+        changed = False
+        for d, ds in defs.items():
+            if not ok.get(d):
+                continue
+            for e in ds:
+                b = _ptr_base(e) if e is not None else None
+                if b is None or not ok.get(b):
+                    ok[d] = False
+                    changed = True
+                    break
+    return {d: names.get(d, d) for d, v in ok.items() if v and d != "mmap_data"}
